@@ -200,10 +200,13 @@ def run(ck):
     az = build_az65_bin()
     d = tempfile.mkdtemp(prefix="az65_c06_")
     try:
+        # an older, longer output file is already in place (the images get shorter from run to run): the file must end
+        # up holding the placed bytes and nothing else
+        open(os.path.join(d, "o.bin"), "wb").write(b"\xEE" * 9000)
         for n, arch in enumerate(asmk.ARCHES):
             # (the last line break is followed by more than a buffer's worth of bytes)
-            img = bytes([1, 10, 2]) + b"A" * (1100 + 300 * n) + b"\n" + b"B" * 2048 + bytes([3])
-            src = "@db 1, 10, 2\n@ds %d, $41\n@db 10\n@ds 2048, $42\n@db 3\n" % (1100 + 300 * n)
+            img = bytes([1, 10, 2]) + b"A" * (1700 - 300 * n) + b"\n" + b"B" * 2048 + bytes([3])
+            src = "@db 1, 10, 2\n@ds %d, $41\n@db 10\n@ds 2048, $42\n@db 3\n" % (1700 - 300 * n)
             open(os.path.join(d, "m.asm"), "w").write(src)
             p1 = subprocess.run([az, arch, "m.asm"], cwd=d, stdout=subprocess.PIPE, stderr=subprocess.PIPE, timeout=60)
             p2 = subprocess.run([az, arch, "m.asm", "-o", "o.bin"], cwd=d, stdout=subprocess.PIPE, stderr=subprocess.PIPE, timeout=60)
